@@ -1254,6 +1254,13 @@ M('sweep11.http.gzip_loop_inverted', ['C12'], 'emitter/otlp/src/client/http.rs',
   '            if chunk.len() == 0 {\n                break;',
   '            if chunk.len() != 0 {\n                break;', 'C12.R10:gzip-consumes-payload')
 
+M('sweep11.client.url_join_or', ['C12'], 'emitter/otlp/src/client.rs',
+  'if !url.ends_with("/") && !path.starts_with("/") {',
+  'if !url.ends_with("/") || !path.starts_with("/") {', 'C12.R9:url-join')
+M('sweep11.client.url_join_neg', ['C12'], 'emitter/otlp/src/client.rs',
+  'if !url.ends_with("/") && !path.starts_with("/") {',
+  'if url.ends_with("/") && !path.starts_with("/") {', 'C12.R9:url-join')
+
 # ---- round 6 (own probing of the blocking entry points): Trigger, send_or_wait, callbacks ------------------------------------------
 M("C07.wait_zero_timeout_reports_flushed", ["C07"], "batcher/src/sync.rs",
   "            if timeout == Duration::ZERO {\n                return false;", "            if timeout == Duration::ZERO {\n                return true;", "C07.R4:Trigger")
